@@ -98,8 +98,7 @@ namespace
                         if (acquired != a0 + 1)
                             viol("C18", "C18/" + kind + "/growth", "a node request on an empty pool acquired %ld blocks", acquired - a0);
                         auto added = pool.capacity_left() + ns;
-                        bool small = std::is_same<PT, small_node_pool>::value;
-                        if (small ? added > nc : added != nc)
+                        if (added != nc)
                             viol("C18", "C18/" + kind + "/next-capacity", "next_capacity() announced %zu bytes, the new block added %zu (node size %zu)", nc,
                                  added, ns);
                         (void)cap0;
